@@ -596,7 +596,7 @@ func evalClauseConcrete(w *World, c *Ctx, o *Obligation, inSMT, outs map[string]
 	}
 	st := &State{env: map[types.Object]Val{}, gh: map[string]Val{}}
 	g := f.specBool(st, o.Clause.Expr, post)
-	q := &Obligation{Name: name + "-concrete", PC: st.pc, Goal: g, Ctx: nc}
+	q := &Obligation{Name: name + "-concrete", PC: st.pc, Goal: g, Ctx: nc, Full: true}
 	neg, _ := discharge(buildQuery(q, true, false), workDir, q.Name+"-neg", 10, false)
 	pos, _ := discharge(buildQuery(q, false, false), workDir, q.Name+"-pos", 10, false)
 	switch {
